@@ -3,7 +3,7 @@
    a well-formed validated file (C07).  Running out of the model's fuel is a separate
    outcome and is not excluded here. *)
 From Coq Require Import List Arith Lia Bool Sorting.Sorted Permutation.
-From Kiki Require Import Base.Ord Base.OrdProofs Base.Chars Data DataProofs Np Oset.Model Oset.Proofs Ast.ValidateProofs Ast.VWF
+From Kiki Require Import Nf Base.Ord Base.OrdProofs Base.Chars Data DataProofs Np Oset.Model Oset.Proofs Ast.ValidateProofs Ast.VWF
   Build.Machine Build.Table Build.TableProofs Build.FillProofs Build.TableSpec Build.ClosureProofs Build.LoopProofs
   Build.LoopInv Build.NormProofs Build.MachineSpec Build.FirstProofs.
 Import ListNotations.
@@ -384,14 +384,6 @@ Proof.
 Qed.
 
 (* ---------- C04: a table is produced exactly when no two items conflict ---------- *)
-
-Definition nf {A} (r : res A) : Prop := forall site, r <> OutOfFuel site.
-
-Lemma nf_bind {A B} (r : res A) (k : A -> res B) : nf r -> (forall a, nf (k a)) -> nf (bind r k).
-Proof. intros Hr Hk. destruct r; cbn; [apply Hk|discriminate 1|discriminate 1|]. intros s. exfalso. apply (Hr site). reflexivity. Qed.
-
-Lemma nf_unwrap {A} site (o : option A) : nf (unwrap site o).
-Proof. destruct o; discriminate 1. Qed.
 
 Lemma nf_set_action m f b s q it a : nf (set_action m f b s q it a).
 Proof. unfold set_action. destruct (act_get _ _ _) as [[ei ea]|]; [destruct (action_eqb ea a)|]; discriminate 1. Qed.
